@@ -1,6 +1,7 @@
 package chainsim
 
 import (
+	"os"
 	"encoding/json"
 	"bytes"
 	"encoding/hex"
@@ -541,6 +542,7 @@ func executeEnumCrash(tr *Trace) (*core.Result, error) {
 		seen[v.Signature()] = true
 	}
 	points := 0
+	var variantDigests []byte // the event logs of the crash variants are part of the run's digest (determinism self-test)
 	for _, b := range tr.Config.CrashBlocks {
 		if b < 0 || b >= len(base.Blocks) {
 			continue
@@ -561,6 +563,10 @@ func executeEnumCrash(tr *Trace) (*core.Result, error) {
 			}
 			points++
 			total.Stats.Merge(r.Stats)
+			variantDigests = append(variantDigests, r.Digest...)
+			if os.Getenv("VERIF_DEBUG_ENUM") != "" {
+				fmt.Fprintf(os.Stderr, "ENUM block %d event %d/%d ioerr=%v digest=%s viols=%d\n", b, k, n, kv >= n, r.Digest, len(r.Violations))
+			}
 			for _, vi := range r.Violations {
 				if !seen[vi.Signature()] {
 					seen[vi.Signature()] = true
@@ -574,7 +580,7 @@ func executeEnumCrash(tr *Trace) (*core.Result, error) {
 	}
 	total.Stats.C("crash_points_enumerated", int64(points))
 	total.NonTrivial = points > 0
-	total.Digest = core.Digest([]byte(total.Digest), []byte(fmt.Sprint(points)))
+	total.Digest = core.Digest([]byte(total.Digest), []byte(fmt.Sprint(points)), variantDigests)
 	return total, nil
 }
 
